@@ -18,6 +18,10 @@ BASES = {
     'busy': (('connect', 0, True, 5, 4), ('connack', 0, 0, False), ('setwin', 0, 3),
              ('pub', 0, 1), ('pub', 0, 2), ('ack', 0, 'PUBREC', ('r', 2)), ('pub', 0, 2),
              ('sub', 0, 'str'), ('unsub', 0, 'str'), ('inpub', 0, 2, False, False, 9, 'short')),
+    # CONNECTING on a rebuilt protocol while a persistent session is carried over (alarms cleared, not yet resumed)
+    'reconnecting-session': (('connect', 0, False, 0, 4), ('connack', 0, 0, True), ('setwin', 0, 3), ('pub', 0, 1), ('pub', 0, 2),
+                             ('ack', 0, 'PUBREC', ('r', 2)), ('pub', 0, 2), ('sub', 0, 'str'), ('lose', 0, 'lost'), ('rebuild', 0),
+                             ('connect', 0, False, 0, 4), ('pub', 0, 1)),
     'busy-v31-persist': (('connect', 0, False, 0, 3), ('connack', 0, 0, True), ('setwin', 0, 2),
                          ('pub', 0, 1), ('pub', 0, 2), ('sub', 0, 'list'), ('inpub', 0, 2, True, True, 9, 'nonascii')),
 }
@@ -272,8 +276,8 @@ def plan(ctx):
     fam_pairs = list(pairs(ids))
     for profile in ('pub', 'sub', 'pubsub'):
         for mode in ('sync', 'async'):
-            for base in ('fresh', 'connecting', 'idle', 'busy', 'busy-v31-persist'):
-                persist = base.endswith('persist')
+            for base in ('fresh', 'connecting', 'idle', 'busy', 'busy-v31-persist', 'reconnecting-session'):
+                persist = base.endswith('persist') or base == 'reconnecting-session'
                 fams = [('mut', fam_mut), ('s3', fam_s3), ('pairs', fam_pairs)]
                 if base in ('connecting', 'idle'):
                     fams.append(('connacks', fam_ck))
@@ -322,7 +326,7 @@ def replay(rec):
     from ..scen import unplain
     sc = rec['scenario']
     data = unplain(rec['history'][-1][2])
-    v, oc = run_one(sc['profile'], sc['mode'], sc['base'], data, sc['base'].endswith('persist'))
+    v, oc = run_one(sc['profile'], sc['mode'], sc['base'], data, sc['base'].endswith('persist') or sc['base'] == 'reconnecting-session')
     print(sc, data.hex(), oc)
     for x in v:
         print('  >>>', x['signature'], x['detail'])
